@@ -231,6 +231,57 @@ def run(nworkers, only=None):
         t.join()
 
 
+def recheck(nworkers):
+    """Re-run the rule sets on the mutants that survived the tests (after rule changes)."""
+    import queue
+    import threading
+    rs = [json.loads(l) for l in open(os.path.join(ROOT, "results.jsonl"))]
+    surv = [r for r in rs if r["status"] == "survived"]
+    qu = queue.Queue()
+    for r in surv:
+        qu.put(r)
+    out = open(os.path.join(ROOT, "recheck.jsonl"), "w")
+    lock = threading.Lock()
+
+    def worker(k):
+        d = os.path.join(ROOT, "w%d" % k)
+        sh(["rsync", "-a", "--exclude", "target", "--exclude", ".git", "--exclude", ".smcache", REPO + "/src/", d + "/src/"])
+        while True:
+            try:
+                m = qu.get_nowait()
+            except queue.Empty:
+                return
+            path = os.path.join(d, "src", m["file"])
+            orig = open(os.path.join(REPO, "src", m["file"])).read()
+            lines = orig.split("\n")
+            lines[m["line"] - 1] = m["new"]
+            open(path, "w").write("\n".join(lines))
+            env2 = dict(os.environ, SMCHECK_REPO=d, SMCHECK_CACHE=os.path.join(d, ".smcache"))
+            rc, o = sh(["python3", CHECKALL], env=env2, timeout=600)
+            try:
+                fired = json.loads(o.strip().split("\n")[-1])
+            except Exception:  # noqa: BLE001
+                fired = {"error": o[-300:]}
+            open(path, "w").write(orig)
+            with lock:
+                out.write(json.dumps(dict(m, fired_before=m.get("fired"), fired=fired)) + "\n")
+                out.flush()
+
+    ts = [threading.Thread(target=worker, args=(k,)) for k in range(nworkers)]
+    for t in ts:
+        t.start()
+    for t in ts:
+        t.join()
+    rs2 = [json.loads(l) for l in open(os.path.join(ROOT, "recheck.jsonl"))]
+    lost = [r for r in rs2 if any(v for v in (r.get("fired_before") or {}).values()) and not any(v for v in r["fired"].values())]
+    gained = [r for r in rs2 if not any(v for v in (r.get("fired_before") or {}).values()) and any(v for v in r["fired"].values())]
+    print("survivors", len(rs2), "detected now", len([r for r in rs2 if any(v for v in r["fired"].values())]), "lost", len(lost), "gained", len(gained))
+    for r in lost:
+        print("LOST %s:%d [%s] %s => %s | before %s" % (r["file"], r["line"], r["op"], r["old"].strip()[:70], r["new"].strip()[:70], sorted(r["fired_before"])))
+    for r in gained:
+        print("GAINED %s:%d [%s] %s => %s | %s" % (r["file"], r["line"], r["op"], r["old"].strip()[:70], r["new"].strip()[:70], sorted(r["fired"])))
+
+
 def report():
     rs = [json.loads(l) for l in open(os.path.join(ROOT, "results.jsonl"))]
     by = {}
@@ -254,3 +305,5 @@ if __name__ == "__main__":
         run(n, only)
     elif cmd == "report":
         report()
+    elif cmd == "recheck":
+        recheck(int(sys.argv[2]) if len(sys.argv) > 2 else 10)
